@@ -100,7 +100,9 @@ def shrink(ctx, profile, history, kind):
         for h in range(len(starts) - 1):
             a, b = starts[h], starts[h + 1]
             i, k = first_bad(ops[a:b], impl[a:b], model[a:b], spec[a:b])
-            if i is not None and k == kind:
+            # a candidate in which the harness rejects a line (`bad-op`: the deletion broke the protocol,
+            # e.g. an operation through a transaction whose Begin was removed) is not a history
+            if i is not None and k == kind and "bad-op" not in impl[a:a + i + 1]:
                 cand = [l for l in ops[a + 1:a + i + 1] if l]
                 if better is None or len(cand) < len(better):
                     better = cand
